@@ -22,6 +22,7 @@ from gxstat.domains import UNIT_TABLE
 from gxstat.flowutil import always_raises
 from gxstat.registry import EnumRef, get_registry
 from gxstat.report import writer_templates
+from gxstat.runner import Renamed
 from gxstat.srcmodel import AnalysisError, calls_in, const_value, dotted_name, norm, parent
 from gxstat.symflow import PathEnumerator, expand_def, names_read
 from rules.u4 import check_heuristics
@@ -334,37 +335,6 @@ def _name_guard(st: ast.AST) -> Optional[str]:
 
 
 # ------------------------------------------------------------------------------------------------- U5 (shared with C09)
-class _Renamed:
-    """Run a C09 rule function under C06's rule id (W1 -> U5); its W2 obligations are not part of this property."""
-
-    def __init__(self, ctx):
-        self._ctx = ctx
-
-    def __getattr__(self, k):
-        return getattr(self._ctx, k)
-
-    def ok(self, rule, *a, **kw):
-        if rule == 'W1':
-            self._ctx.ok('U5', *a, **kw)
-
-    def bad(self, rule, *a, **kw):
-        if rule == 'W1':
-            self._ctx.bad('U5', *a, **kw)
-
-    def check(self, cond, rule, *a, **kw):
-        if rule == 'W1':
-            return self._ctx.check(cond, 'U5', *a, **kw)
-        return cond
-
-    def floor(self, rule, *a, **kw):
-        if rule == 'W1':
-            self._ctx.floor('U5', *a, **kw)
-
-    def info(self, msg):
-        if msg.startswith('W1'):
-            self._ctx.info('U5' + msg[2:])
-
-
 # ------------------------------------------------------------------------------------------------- U7
 def check_u7(ctx) -> None:
     """The three sibling K/M prefix blocks compute Factor = mult(pref) / mult(curr) (pref multiplied up, curr divided down).
@@ -639,7 +609,73 @@ def _obj_key(obj: str) -> str:
     return obj if len(obj) < 60 else obj[:57] + '...'
 
 
+# ------------------------------------------------------------------------------------------------- U13 / U14
+# unit types for which ConvertUnits leaves the user's unit in CurrentUnits after converting the value (the lookup of pint's long
+# name of the preferred unit finds nothing in the catalogue and does not raise): witnessed with the real program during triage
+STALE_LABEL_TYPES = {'TEMPERATURE': '`Maximum Temperature, 752 degF` -> value 400 (degC), CurrentUnits degF'}
+
+
+def check_u13(ctx) -> None:
+    """LookupUnits is documented to return nothing for an unknown text.  A pint lookup in it that can raise must sit in a try."""
+    f = ctx.repo.module(P).functions.get('LookupUnits')
+    ctx.require(f is not None, 'Parameter.LookupUnits not found')
+    n = 0
+    for c in calls_in(f.node):
+        d = dotted_name(c.func) or ''
+        if d.startswith('_ureg.') or d.startswith('ureg.'):
+            n += 1
+            guarded = False
+            p = parent(c)
+            while p is not None and p is not f.node:
+                if isinstance(p, ast.Try) and any(x is c for b in [p.body] for st in b for x in ast.walk(st)) and p.handlers:
+                    guarded = True
+                p = parent(p)
+            ctx.check(guarded, 'U13', f'LookupUnits/{d}/cannot-raise', f'{f.module.rel}:{c.lineno}',
+                      f'`{norm(c)}` raises UndefinedUnitError for any text that is not a single unit name (\'meter ** 2\', \'dimensionless\'); '
+                      f'ConvertUnits looks up the unit of the converted quantity this way, so an input written in another area, volume, '
+                      f'density, gradient or percent unit of the catalogue aborts the run', fact='inside try/except')
+    ctx.floor('U13', n, 1, 'pint lookups in LookupUnits')
+
+
+def check_u14(ctx, rule: str = 'U14', only_classes=None) -> int:
+    """While ConvertUnits leaves a stale label on inputs of the listed unit types (U2), code must read such an input through
+    `.value` (expressed in the unit held before the read), not through `.quantity()` / Quantity(x.value, x.CurrentUnits)."""
+    repo = ctx.repo
+    n = 0
+    for f in repo.all_functions():
+        if f.module.rel.endswith('geophires_x/Parameter.py'):
+            continue
+        cls = f.cls.name if f.cls is not None else None
+        if only_classes is not None and cls not in only_classes:
+            continue
+        res = AtomResolver(repo, cls)
+        for c in calls_in(f.node):
+            if not (isinstance(c.func, ast.Attribute) and c.func.attr == 'quantity' and not c.args):
+                continue
+            obj = dotted_name(c.func.value)
+            if not obj:
+                continue
+            d = res.decl(obj + '.value')
+            if d is None or not d.is_input:
+                continue
+            ut = d.get('UnitType')
+            n += 1
+            t = ut.member if isinstance(ut, EnumRef) else None
+            key = f'{f.qualname}/{d.attr}.quantity()'
+            where = f'{f.module.rel}:{c.lineno}'
+            msg = (f'`{norm(c)}` trusts CurrentUnits of the input {d.name!r} ({t}); after a unit-suffixed read ConvertUnits leaves the '
+                   f'user\'s unit there although the value was converted ({STALE_LABEL_TYPES.get(t, "")}), so the already-converted number is '
+                   f'interpreted in the user\'s unit a second time and the results depend on the unit the input was written in')
+            if t in STALE_LABEL_TYPES and cls in INFO_OWNERS:
+                ctx.info(f'{rule} {where} {key}: {msg}')
+            else:
+                ctx.check(t not in STALE_LABEL_TYPES, rule, key, where, msg, fact=f'{t}: label restored after the read')
+    return n
+
+
 def run(ctx) -> None:
+    ctx.rule('U13', 'pint lookups inside LookupUnits cannot raise (the function returns nothing for unknown text)')
+    ctx.rule('U14', 'inputs of a unit type whose label goes stale in ConvertUnits are read through .value, not .quantity()')
     ctx.rule('U12', 'outside the converters a CurrentUnits store is paired with a change of the same object\'s value')
     ctx.rule('U1', 'every unit type used by a declaration has a LookupUnits arm whose catalogue holds the declaration\'s unit texts')
     ctx.rule('U2', 'typestate value-in-CurrentUnits: ConvertUnits never leaves the user\'s unit as label of a converted value; every '
@@ -661,13 +697,16 @@ def run(ctx) -> None:
     k = check_heuristics(ctx, 'U4')
     ctx.floor('U4', k, 5, 'magnitude heuristics')
     from rules.c09 import check_w1_w2
-    check_w1_w2(_Renamed(ctx), writer_templates(ctx.repo))
+    check_w1_w2(Renamed(ctx, {'W1': 'U5'}), writer_templates(ctx.repo))
     check_u7(ctx)
     check_u8(ctx)
     check_u9(ctx)
     check_u10(ctx)
     check_u11(ctx)
     check_u12(ctx)
+    check_u13(ctx)
+    k14 = check_u14(ctx)
+    ctx.floor('U14', k14, 20, '.quantity() reads of input parameters')
     ctx.undecided('what pint parses or computes for a given unit text', 'numerical equality of a run re-expressed in other units (paired-run property)',
                   'list-valued inputs with per-element units')
     ctx.assume('a unit-suffixed input reaches ConvertUnits through ReadParameter only (C07 V3 routing)')
